@@ -7,6 +7,8 @@ From Boltons Require Import Proofs.C09_Strip Proofs.C09_Chunked Proofs.C09_Split
 From Boltons Require Import Proofs.C09_Windowed Proofs.C09_Ranges Proofs.C09_Redundant Proofs.C09_WsLaws.
 From Boltons Require Import Model.C09_PyRanges Proofs.C09_PyRangesProof Gen.C09_Gen Proofs.C09_GenTie.
 From Boltons Require Import Gen.C09_Src Proofs.C09_SrcLoops Proofs.C09_SrcStrip.
+From Coq Require Import Permutation.
+From Boltons Require Import Proofs.C09_Conserve.
 
 (* ======================= chunked / chunked_iter ========================== *)
 (* for every input, every size >= 1 and every fill: the generator terminates
@@ -182,6 +184,25 @@ Proof.
    (conj (spec_bucketize_bucket key vt kf src) (spec_bucketize_total key vt kf src))).
 Qed.
 Print Assumptions C09_bucketize_exactly_one_bucket.
+
+(* conservation as a multiset statement: the buckets together are a
+   permutation of the accepted (transformed) input - nothing lost, nothing
+   duplicated; likewise the two lists of partition *)
+Theorem C09_bucketize_conserves_elements :
+  forall key vt kf src,
+    Permutation (concat (map snd (m_bucketize key vt kf src)))
+                (map vt (filter (fun x => kf (key x)) src))
+    /\ Permutation (concat (map snd (spec_bucketize key vt kf src)))
+                   (map vt (filter (fun x => kf (key x)) src)).
+Proof.
+  exact (fun key vt kf src => conj (m_bucketize_conserves key vt kf src) (spec_bucketize_conserves key vt kf src)).
+Qed.
+Print Assumptions C09_bucketize_conserves_elements.
+
+Theorem C09_partition_conserves_elements :
+  forall p src, Permutation (fst (m_partition p src) ++ snd (m_partition p src)) src.
+Proof. exact m_partition_conserves. Qed.
+Print Assumptions C09_partition_conserves_elements.
 
 Theorem C09_partition_is_filter_pair :
   forall p src, m_partition p src = spec_partition p src.
